@@ -1,24 +1,32 @@
 """C01 - print o parse = identity (XML, JSON, LYB)"""
-from props import comps, comps_json, oracles
+from props import comps, comps_json, comps_lyb, oracles
 
 PID = "C01"
 LEVEL = "proof"
 
 
 def components():
-    return [comps.Utf8(), comps.XmlEsc(), comps.XmlVal(), comps_json.JsonEsc(), comps_json.JsonStr()]
+    return [comps.Utf8(), comps.XmlEsc(), comps.XmlVal(), comps_json.JsonEsc(), comps_json.JsonStr(),
+            comps_lyb.LybWrite(), comps_lyb.LybRoundTrip(), comps_lyb.LybRead(), comps_lyb.LybHashGen(), comps_lyb.LybSiblings()]
 
 
 def oracles_():
     return [oracles.RoundTrip()]
 
 MANIFEST = {
-    "text": "Coq theorems: the XML text printer/lexer pair is an exact round trip for every string of accepted characters of any "
+    "text": "Coq theorems: (XML) the text printer/lexer pair is an exact round trip for every string of accepted characters of any "
             "length (C01_xml_text_roundtrip*), including CR and, in attribute values, TAB and LF, which the printer writes as "
-            "character references since 6fdbff2 / 47fa563 (the lexer reads them back; its white-space-only flag is stated "
-            "exactly). The models are tied to the tree by scraped escape tables (T1) and by "
-            "differential runs of the extracted model against the static C functions (T2).",
-    "note": "Modelled (not verified) C: lyxml_dump_text, lyxml_parse_value, ly_getutf8/pututf8/checkutf8. Trusted: Coq kernel, "
-            "extraction, drivers/generators. Document-level printers/parsers are covered by API-level oracles (testing).",
+            "character references since 6fdbff2 / 47fa563; (JSON) json_print_string / lyjson_string round trip "
+            "(C01_json_string_roundtrip*); (LYB) for every well-bracketed script of sibling starts/stops and writes of any size "
+            "the chunked writer's output is read back by the reader as the same payloads, parametric in LYB_SIZE_MAX "
+            "(C01_lyb_chunk_roundtrip), the writer fails only through its LOGINT branches, and the printed hash sequence of a "
+            "sibling identifies it among its siblings (C01_lyb_hashseq_identifies; totality of hashing is refuted = finding "
+            "lyb-hash-collision). Tie: scraped escape tables and LYB constants (T1), differential runs of the extracted models "
+            "against the static C functions incl. byte-identical LYB chunk streams around the 65535 boundary (T2). Whole "
+            "documents (all formats x printer options) are checked by the API round-trip oracle (search).",
+    "note": "Modelled (not verified) C: lyxml_dump_text, lyxml_parse_value, ly_getutf8/pututf8/checkutf8, json_print_string, "
+            "lyjson_string, lyb_write/lyb_read with start/stop siblings, lyb_hash_siblings/lyb_generate_hash. Trusted: Coq kernel, "
+            "extraction, drivers/generators. The document level (node order, flags, metadata, opaque nodes, anydata) is not "
+            "modelled in Coq yet: API-level oracle only.",
     "technique": "Coq proof over hand-written model + differential correspondence (extracted OCaml vs C) + round-trip oracle",
 }
